@@ -9,7 +9,7 @@ use crate::component::sort_key::{AncestorsScoreSortKey, EvictKey};
 use crate::error::Reject;
 use ckb_logger::{debug, error, trace};
 use ckb_types::core::error::OutPointError;
-use ckb_types::core::{Cycle, FeeRate};
+use ckb_types::core::{Capacity, Cycle, FeeRate};
 use ckb_types::packed::OutPoint;
 use ckb_types::{
     bytes::Bytes,
@@ -236,10 +236,19 @@ impl PoolMap {
                 entry.inner.transaction().hash(),
                 entry.status
             );
+            let ancestors = self.links.calc_ancestors(id);
+            let descendants = self.links.calc_descendants(id);
             self.update_ancestors_index_key(&entry.inner, EntryOp::Remove);
             self.update_descendants_index_key(&entry.inner, EntryOp::Remove);
             self.remove_entry_edges(&entry.inner);
             self.remove_entry_links(id);
+            if !ancestors.is_empty() && !descendants.is_empty() {
+                // removed between pooled ancestors and pooled descendants: some of them are no
+                // longer related to each other
+                let mut family = ancestors;
+                family.extend(descendants);
+                self.recompute_aggregates(&family);
+            }
             self.track_entry_statics(Some(entry.status), None);
             self.update_stat_for_remove_tx(entry.inner.size, entry.inner.cycles);
             entry.inner
@@ -434,6 +443,46 @@ impl PoolMap {
         self.links.remove(id);
     }
 
+    /// Recompute the ancestor / descendant aggregates (and the index keys derived from them)
+    /// of `ids` from the links. The incremental updates below are only exact when an entry is
+    /// added as a leaf or removed at the root or at a leaf of its family; the two other cases
+    /// (an entry added below already pooled descendants, an entry removed between a pooled
+    /// ancestor and a pooled descendant) change which pairs are related at all.
+    fn recompute_aggregates(&mut self, ids: &HashSet<ProposalShortId>) {
+        for id in ids {
+            let Some(own) = self.get(id).cloned() else {
+                continue;
+            };
+            let fold = |set: HashSet<ProposalShortId>| {
+                set.iter().filter_map(|x| self.get(x)).fold(
+                    (1usize, own.size, own.cycles, own.fee.as_u64()),
+                    |acc, e| {
+                        (
+                            acc.0.saturating_add(1),
+                            acc.1.saturating_add(e.size),
+                            acc.2.saturating_add(e.cycles),
+                            acc.3.saturating_add(e.fee.as_u64()),
+                        )
+                    },
+                )
+            };
+            let anc = fold(self.links.calc_ancestors(id));
+            let desc = fold(self.links.calc_descendants(id));
+            self.entries.modify_by_id(id, |e| {
+                e.inner.ancestors_count = anc.0;
+                e.inner.ancestors_size = anc.1;
+                e.inner.ancestors_cycles = anc.2;
+                e.inner.ancestors_fee = Capacity::shannons(anc.3);
+                e.inner.descendants_count = desc.0;
+                e.inner.descendants_size = desc.1;
+                e.inner.descendants_cycles = desc.2;
+                e.inner.descendants_fee = Capacity::shannons(desc.3);
+                e.score = e.inner.as_score_key();
+                e.evict_key = e.inner.as_evict_key();
+            });
+        }
+    }
+
     fn update_ancestors_index_key(&mut self, child: &TxEntry, op: EntryOp) {
         let ancestors: HashSet<ProposalShortId> =
             self.links.calc_ancestors(&child.proposal_short_id());
@@ -504,7 +553,8 @@ impl PoolMap {
             }
         }
         // update children
-        if !children.is_empty() {
+        let late_parent = !children.is_empty();
+        if late_parent {
             for child in &children {
                 self.links.add_parent(child, tx_short_id.clone());
             }
@@ -515,6 +565,14 @@ impl PoolMap {
         }
         // update ancestor's index key for adding new entry
         self.update_ancestors_index_key(entry, EntryOp::Add);
+        if late_parent {
+            // the entry and its ancestors are now related to descendants that were pooled
+            // before it
+            let mut family = self.links.calc_ancestors(&tx_short_id);
+            family.extend(self.links.calc_descendants(&tx_short_id));
+            family.insert(tx_short_id);
+            self.recompute_aggregates(&family);
+        }
     }
 
     // return (ancestors, parents, cell_ref_parents)
